@@ -60,8 +60,9 @@ func (i ImportNames) LookupName(pkgPath string) (name string, ok bool) {
 // in the conversion setup file.
 func (i ImportNames) LookupPath(pkgName string) (path string, ok bool) {
 	for p, n := range i {
-		if n == pkgName {
-			return p, true
+		if n == pkgName && (!ok || p < path) {
+			// Names are not unique (e.g. several blank imports): pick deterministically.
+			path, ok = p, true
 		}
 	}
 	return
